@@ -148,37 +148,38 @@ restriction: tracks whose bracket structure has no loop break (`noBreakL`), leav
 fragment, terminated by `FINISH`.  For every fuel, tick limit, number of followed jumps and initial
 register contents the interpreter stops only with `finished`, `fuel` or `tooManyTicks`. -/
 theorem C03_codec_never_reads_outside_partial (nS nM : Nat) (ts : List Node) (hl : linL ts = true)
-    (hn : noBreakL ts = true) (farg : Nat) :
+    (hn : noBreakL ts = true) (hm : mokL Mode.plain false ts = true) (farg : Nat) :
     ∃ bytes, convertTrack nS nM (flatL ts ++ [⟨mds_FINISH, farg⟩]) = .ok bytes ∧
       ∀ (base mj maxTicks fuel : Nat) (ln lr : Option Nat),
         (run bytes base mj maxTicks fuel { pc := 0, lastNote := ln, lastRest := lr }).2 ∈
           [Stop.finished, Stop.fuel, Stop.tooManyTicks] := by
-  obtain ⟨bytes, h1, h2⟩ := codec_roundtrip_loops_nobreak nS nM ts hl hn farg
+  obtain ⟨bytes, h1, h2⟩ := codec_roundtrip_loops_nobreak nS nM ts hl hn hm farg
   exact ⟨bytes, h1, fun base mj maxTicks fuel ln lr => (h2 base mj ln lr).safe maxTicks fuel⟩
 
 /-- the same for every bracket structure, loops WITH break included (restriction: leaves in the
 linear fragment, terminated by `FINISH`, stream shorter than 64 KiB; `Codec.encL` = the structured
 encoder of `C02_convert_structured_eq`) -/
 theorem C03_codec_never_reads_outside_loops_partial (nS nM : Nat) (ts : List Node) (hl : linL ts = true)
-    (hk : brkOkL false ts = true) (hnc : noCallL ts = true) (farg : Nat) :
+    (hk : brkOkL false ts = true) (hnc : noCallL ts = true) (hm : mokL Mode.plain false ts = true) (farg : Nat) :
     ∃ e', encL nS nM ts {} = .ok e' ∧
       (e'.out.length + 1 < 65536 →
         convertTrack nS nM (flatL ts ++ [⟨mds_FINISH, farg⟩]) = .ok (e'.out ++ [mds_FINISH]) ∧
         ∀ (base mj maxTicks fuel : Nat) (ln lr : Option Nat),
           (run (e'.out ++ [mds_FINISH]) base mj maxTicks fuel { pc := 0, lastNote := ln, lastRest := lr }).2 ∈
             [Stop.finished, Stop.fuel, Stop.tooManyTicks]) := by
-  obtain ⟨e', h1, h2⟩ := codec_roundtrip_loops nS nM ts hl hk hnc farg
+  obtain ⟨e', h1, h2⟩ := codec_roundtrip_loops nS nM ts hl hk hnc hm farg
   exact ⟨e', h1, fun hb => ⟨(h2 hb).1, fun base mj maxTicks fuel ln lr => ((h2 hb).2 base mj ln lr).safe maxTicks fuel⟩⟩
 
 /-- the same for a looping track `a ++ [SEGNO] ++ b ++ [JUMP]` (`a`, `b` linear, stream < 64 KiB),
 however often the jump is followed -/
 theorem C03_codec_never_reads_outside_segno_partial (nS nM : Nat) (a b : List MEv)
-    (ha : ∀ ev ∈ a, linEv ev = true) (hb : ∀ ev ∈ b, linEv ev = true) (jarg : Nat) :
+    (ha : ∀ ev ∈ a, linEv ev = true) (hb : ∀ ev ∈ b, linEv ev = true) (ma : ∀ ev ∈ a, Mode.plain.evOk ev = true)
+    (mb : ∀ ev ∈ b, Mode.plain.evOk ev = true) (jarg : Nat) :
     ∃ bytes, convertTrack nS nM (a ++ [⟨mds_SEGNO, 0⟩] ++ b ++ [⟨mds_JUMP, jarg⟩]) = .ok bytes ∧
       (bytes.length < 65536 → ∀ (base mj maxTicks fuel : Nat) (ln lr : Option Nat),
         (run bytes base mj maxTicks fuel { pc := 0, lastNote := ln, lastRest := lr }).2 ∈
           [Stop.finished, Stop.fuel, Stop.tooManyTicks]) := by
-  obtain ⟨bytes, h1, h2⟩ := codec_roundtrip_segno nS nM a b ha hb jarg
+  obtain ⟨bytes, h1, h2⟩ := codec_roundtrip_segno nS nM a b ha hb ma mb jarg
   exact ⟨bytes, h1, fun hlen base mj maxTicks fuel ln lr => (h2 hlen base mj ln lr).safe maxTicks fuel⟩
 
 /-- **The stream is terminated and well-formed: the walker accepts it** — linear tracks ending in
@@ -230,6 +231,7 @@ behind a first break of their own loop, `brkOkL false`; no calls; loop point at 
 opcode / a missing length / an empty loop stack, however often the jump is followed. -/
 theorem C03_track_wellformed_partial (nS nM : Nat) (ta tb : List Node) (ha : linL ta = true) (hb : linL tb = true)
     (ka : brkOkL false ta = true) (kb : brkOkL false tb = true) (na : noCallL ta = true) (nb : noCallL tb = true)
+    (ma : mokL Mode.plain false ta = true) (mb : mokL Mode.plain false tb = true)
     (jarg : Nat) :
     ∃ eA eB, encL nS nM ta {} = .ok eA ∧ encL nS nM tb (afterSegno eA) = .ok eB ∧
       ((trackBytes eB).length < 65536 →
@@ -239,7 +241,7 @@ theorem C03_track_wellformed_partial (nS nM : Nat) (ta tb : List Node) (ha : lin
         ∀ (base mj maxTicks fuel : Nat) (ln lr : Option Nat),
           (run (trackBytes eB) base mj maxTicks fuel { pc := 0, lastNote := ln, lastRest := lr }).2 ∈
             [Stop.finished, Stop.fuel, Stop.tooManyTicks]) := by
-  obtain ⟨eA, eB, hA, hB, h⟩ := codec_roundtrip_track nS nM ta tb ha hb ka kb na nb jarg
+  obtain ⟨eA, eB, hA, hB, h⟩ := codec_roundtrip_track nS nM ta tb ha hb ka kb na nb ma mb jarg
   obtain ⟨eA', eB', hA', hB', h'⟩ := walk_accepts_track nS nM ta tb ha hb ka kb jarg
   rw [hA] at hA'; injection hA' with hA'; subst hA'
   rw [hB] at hB'; injection hB' with hB'; subst hB'
@@ -335,9 +337,9 @@ whose expected tick string is defined, with `start` = the position the track tab
    between the two loop marks: the loop-back jump spans time. -/
 theorem C03_song_wellformed_partial (song : Song) (d : DataInfo) (vol : Option String) (pf : Timeline.Platform)
     (b : MdsFile.Built) (hpc : PlatformClean d) (hp : SongTop.PlainSong song)
-    (hb : MdsFile.construct song d vol = .ok b) (hlen : b.seq.length < 65536) :
+    (hb : MdsFile.construct song d vol = .ok b) (hlen : b.seq.length < 65536) (hR : SongTop.RoutinesOK song b) :
     ∀ id root t, (id, root) ∈ song.tracks → id < 16 → Timeline.inDomain song root = true →
-      SongSplit.segCount root ≤ 1 → Timeline.expected song pf root = .ok t →
+      SongSplit.segCount root ≤ 1 → SongTop.LoopDrumOK root → Timeline.expected song pf root = .ok t →
       ∃ base ts start, tracksOf b.seq = some (base, ts) ∧ ts.lookup id = some start ∧
         (∃ len, start + len ≤ b.seq.length ∧
           ∀ fuel, fuel ≥ len → SeqWf.walk b.seq start fuel { pc := start } = .ok (start + len)) ∧
@@ -345,20 +347,20 @@ theorem C03_song_wellformed_partial (song : Song) (d : DataInfo) (vol : Option S
           [Stop.finished, Stop.fuel, Stop.tooManyTicks]) ∧
         (∀ maxTicks fuel, (run b.seq base 2 maxTicks fuel { pc := start }).2 = Stop.finished →
           SeqWf.ticksBetweenLoops (run b.seq base 2 maxTicks fuel { pc := start }).1 ≠ some 0) := by
-  intro id root t hmem hid hdom hcnt hexp
+  intro id root t hmem hid hdom hcnt hloop hexp
   have hseg := SongTop.inDomain_segno hdom
-  obtain ⟨ts, stream, pre, htr, hlk, hpre, hres⟩ := SongTop.song_plays hpc hp hb hlen pf hmem hid hseg hcnt hexp 0
+  obtain ⟨ts, stream, pre, htr, hlk, hpre, hres⟩ := SongTop.song_plays hpc hp hb hlen pf hmem hid hR hseg hcnt hloop hexp 0
   refine ⟨_, ts, pre.length, htr, hlk, ⟨stream.length, ?_, hres.walks⟩, ?_, ?_⟩
   · have := hpre.length_le; simpa using this
   · intro mj maxTicks fuel
-    obtain ⟨ts', stream', pre', htr', hlk', _, hres'⟩ := SongTop.song_plays hpc hp hb hlen pf hmem hid hseg hcnt hexp mj
+    obtain ⟨ts', stream', pre', htr', hlk', _, hres'⟩ := SongTop.song_plays hpc hp hb hlen pf hmem hid hR hseg hcnt hloop hexp mj
     rw [htr] at htr'; injection htr' with htr'; injection htr' with _ htr'; subst htr'
     rw [hlk] at hlk'; injection hlk' with hlk'
     obtain ⟨X, Y, TA, TB, loops, s', hreach, hfin, _⟩ := hres'.plays
     rw [← hlk'] at hreach
     rcases run_stop_of_reach (maxTicks := maxTicks) hreach hfin fuel with h | h | h <;> simp [h]
   · intro maxTicks fuel hfinished
-    obtain ⟨ts', stream', pre', htr', hlk', _, hres'⟩ := SongTop.song_plays hpc hp hb hlen pf hmem hid hseg hcnt hexp 2
+    obtain ⟨ts', stream', pre', htr', hlk', _, hres'⟩ := SongTop.song_plays hpc hp hb hlen pf hmem hid hR hseg hcnt hloop hexp 2
     rw [htr] at htr'; injection htr' with htr'; injection htr' with _ htr'; subst htr'
     rw [hlk] at hlk'; injection hlk' with hlk'
     obtain ⟨X, Y, TA, TB, loops, s', hreach, hfin, hout, hX, hY, _, htime, hnX, hnY⟩ := hres'.plays
